@@ -535,7 +535,7 @@ pub fn run_check(def: &CheckDef, tier: Tier, verif_seed: u64) -> i32 {
             let f = fs[0];
             let (min_case, h) = minimise(sc, &f.case, def.property, &tag);
             let v = still_fails(sc, &min_case, def.property, &tag).map(|x| x.0).unwrap_or_else(|| f.v.clone());
-            let name = format!("{}-{}-{:016x}", def.property, sc.name(), f.case.seed);
+            let name = format!("{}-{}-{:016x}-{:04x}", def.property, sc.name(), f.case.seed, name_hash(&tag) & 0xffff);
             let path = write_replay(&min_case, &v, h, verif_seed, &format!("{root}/replays"), &name);
             println!("  oracle={} at={} detail={} (steps: {} -> {})", v.tag, v.at, v.detail, f.case.steps.len(), min_case.steps.len());
             violation_lines.push(format!("VIOLATION property={} replay={}", def.property, path));
